@@ -5,10 +5,12 @@ CONSTANTS
   TableSize = 40
   WaitCode = 35
   Vias = {TRUE, FALSE}
-  MaxReq = 3
+  MaxReq = 1000000
   MaxBatch = 2
   Hist = FALSE
   SplitReg = FALSE
-INVARIANTS TypeOK Partition NextRequest
+VIEW ViewLts
+INVARIANTS TypeOK Partition
 PROPERTIES P_C20
+ACTION_CONSTRAINT EmitOrd
 CHECK_DEADLOCK FALSE
